@@ -1,4 +1,5 @@
 import PyxelModel.Model.C08
+import PyxelModel.Lemmas.C08
 import PyxelModel.Generated.C08
 /-!
 # C08 — property theorems (statement: properties.jsonl C08)
@@ -458,19 +459,6 @@ theorem find_map {β : Type} (l : List β) (f : β → String) (acc : β → Acc
     · simp [find, h]
     · simp [find, h, ih]
 
-/-- the statement's reading of one sweep step on a model argument: the configuration's first model `m`
-of group `g` must exist, declare `a`, and be enabled; `_` placeholders only in custom mode
-(`KeyError` for an unknown group / model / argument, `ValueError` for a disabled model) -/
-def validateArgSpec (gs : List (String × Option (List ModelCfg))) (g m a : String) (vals : List Val)
-    (custom : Bool) : Except Err Unit :=
-  match cfgModel gs g m with
-  | none => .error .key
-  | some c =>
-    if a ∈ c.args.map Prod.fst then
-      if c.enabled then (if vals.any isUnderscore && !custom then .error .value else .ok ())
-      else .error .value
-    else .error .key
-
 theorem sw_args : startsWith "arguments" "arguments" = true := by decide
 theorem sw_enabled : startsWith "enabled" "arguments" = false := by decide
 theorem ew_pipeline : endsWith "pipeline" "pipeline" = true := by decide
@@ -654,5 +642,61 @@ example : validateStep true (processorTree .pynone [("photon_collection",
     ["pipeline", "photon_collection", "illumination", "enabled"] [.bool true, .bool false] false
       = .ok () := by
   rfl
+
+/-! ## textual values are converted to the number, list or string they literally denote -/
+
+/-- **Literal round trip.**  For every literal of the grammar — `None`, booleans, integers of any size,
+decimal / scientific floats, quoted strings, lists and tuples nested to any depth — converting its text
+gives exactly the value it denotes (structural induction over nested literals; no size bound). -/
+theorem evalEntry_render (l : Lit) (hwf : l.wf = true) : evalChars (render l) = denote l := by
+  have h := pVal_render l hwf ((render l).length + 1) [] (by have := fuel_le_length l; omega) rfl
+  simp only [List.append_nil] at h
+  simp [evalChars, h]
+
+/-- the same through the `String` interface the driver uses -/
+theorem evalEntry_render_string (l : Lit) (hwf : l.wf = true) :
+    evalEntry (String.ofList (render l)) = denote l := by
+  simp [evalEntry, evalEntry_render l hwf]
+
+/-- Non-vacuity: a nested literal with every kind of leaf. -/
+example : evalEntry "[-5, 0.05e-3, 'ab', (None,), (True, False), (), [12.5]]" =
+    denote (.list [.int true 5, .dec false 0 1 5 (some (true, 3)), .str false "ab".toList, .tuple [.none],
+      .tuple [.bool true, .bool false], .tuple [], .list [.dec false 12 0 5 none]]) := by
+  have : "[-5, 0.05e-3, 'ab', (None,), (True, False), (), [12.5]]" = String.ofList (render
+      (.list [.int true 5, .dec false 0 1 5 (some (true, 3)), .str false "ab".toList, .tuple [.none],
+        .tuple [.bool true, .bool false], .tuple [], .list [.dec false 12 0 5 none]])) := by decide
+  rw [this]
+  exact evalEntry_render_string _ (by decide)
+
+/-- **A bare word is the string itself**: a text that starts like an identifier and is not one of the
+three keywords is not a literal and converts to itself (file names, model names, `numpy`-free words). -/
+theorem evalEntry_bareword (c : Char) (r : List Char) (hc : isIdStart c = true)
+    (h1 : c :: r ≠ "None".toList) (h2 : c :: r ≠ "True".toList) (h3 : c :: r ≠ "False".toList) :
+    evalChars (c :: r) = .str (String.ofList (c :: r)) := by
+  have hsplit := spanP_append isIdChar (c :: r)
+  unfold evalChars
+  rw [List.length_cons, pVal_keyword _ r hc]
+  unfold pKeyword
+  by_cases e1 : (spanP isIdChar (c :: r)).1 = "None".toList
+  · simp only [e1, if_true]
+    cases hr : (spanP isIdChar (c :: r)).2 with
+    | nil => rw [e1, hr] at hsplit; exact absurd (by simpa using hsplit.symm) h1
+    | cons _ _ => rfl
+  · by_cases e2 : (spanP isIdChar (c :: r)).1 = "True".toList
+    · simp only [e2, if_true]
+      cases hr : (spanP isIdChar (c :: r)).2 with
+      | nil => rw [e2, hr] at hsplit; exact absurd (by simpa using hsplit.symm) h2
+      | cons _ _ => rfl
+    · by_cases e3 : (spanP isIdChar (c :: r)).1 = "False".toList
+      · simp only [e3, if_true]
+        cases hr : (spanP isIdChar (c :: r)).2 with
+        | nil => rw [e3, hr] at hsplit; exact absurd (by simpa using hsplit.symm) h3
+        | cons _ _ => rfl
+      · simp only [e1, e2, e3, if_false]
+
+example : evalEntry "image_01.fits" = .str "image_01.fits" := by
+  have : "image_01.fits" = String.ofList ('i' :: "mage_01.fits".toList) := by decide
+  rw [this, evalEntry, String.toList_ofList]
+  exact evalEntry_bareword 'i' _ (by decide) (by decide) (by decide) (by decide)
 
 end PyxelModel.C08
